@@ -331,6 +331,20 @@ ExportX(v) ==
             IN  [x |-> "obj", keys |-> (IF v.ts.k = "inherit" THEN <<>> ELSE <<S_toString>>) \o (IF v.vo.k = "inherit" THEN <<>> ELSE <<S_valueOf>>),
                               vals |-> mem(v.ts) \o mem(v.vo)]
 
+(* Export of data in which containers are SHARED or CYCLIC.  nodes is a      *)
+(* sequence of containers [kind |-> "arr"|"obj", keys, vals]; a member value *)
+(* is a primitive or a reference [t |-> "ref", i] to node i.  Sharing is     *)
+(* invisible to Export (the result is the tree unfolding); a reference back  *)
+(* to a container that is being exported (a cycle) exports as nil.           *)
+RECURSIVE ExportNode(_, _, _)
+RECURSIVE ExportMember(_, _, _)
+ExportMember(nodes, v, active) ==
+    IF v.t = "ref" THEN (IF v.i \in active THEN XNil ELSE ExportNode(nodes, v.i, active)) ELSE ExportX(v)
+ExportNode(nodes, i, active) ==
+    LET nd == nodes[i]  act == active \cup {i}
+        vs == [j \in 1..Len(nd.vals) |-> ExportMember(nodes, nd.vals[j], act)]
+    IN  IF nd.kind = "arr" THEN [x |-> "arr", items |-> vs] ELSE [x |-> "obj", keys |-> nd.keys, vals |-> vs]
+
 (* The Go type otto gives an exported value (only used to say when the known *)
 (* deviation D15_export_common_type_panics strikes): number literals that    *)
 (* are non-negative integers below 2^53 are held as int64, all other numbers *)
@@ -386,6 +400,22 @@ ThisBinding(th) ==        \* th: [k |-> "undef"|"null"|"objO"|"gonil"] or [k |->
       [] th.k = "objO" -> [k |-> "O"]
       [] th.k = "prim" -> [k |-> "boxed", v |-> ToJS(th.g)]
 CallObs(th, args) == [th |-> ThisBinding(th), a |-> [i \in 1..Len(args) |-> ToJS(args[i])]]
+(* Otto.Call(source, this, args...): the source is the constructor form only  *)
+(* when it begins with the keyword new followed by a space (otto.go doc); any  *)
+(* other source - also a name that merely begins with the letters n-e-w - is   *)
+(* evaluated and called (11.2.3), a dotted path with a Go-nil this taking its  *)
+(* owner as this.  src = [new |-> BOOLEAN, sp (spaces after new), path]; what  *)
+(* the callee records: its own name, whether it was constructed (11.2.2), the  *)
+(* this binding, the arguments, and what the API returned.                      *)
+CallSrcObs(src, th, args) ==
+    LET callee == src.path[Len(src.path)] IN
+    [callee |-> callee, construct |-> src.new,
+     th |-> IF src.new THEN "newobj" ELSE IF th.k = "objO" THEN "O" ELSE IF Len(src.path) > 1 THEN "owner" ELSE "global",
+     a |-> [i \in 1..Len(args) |-> ToJS(args[i])],
+     ret |-> (IF src.new THEN "obj:" ELSE "R:") \o callee]
+(* Object.Call(name, args...) never constructs: the method is called with the object as this *)
+ObjCallObs(name, args) == [callee |-> name, construct |-> FALSE, th |-> "owner", a |-> [i \in 1..Len(args) |-> ToJS(args[i])], ret |-> "R:" \o name]
+
 (* failing calls: the callee throws (the exception is the error of the API     *)
 (* call), the value is not callable (11.2.3 step 5: TypeError), the name does  *)
 (* not resolve (8.7.1: ReferenceError)                                          *)
@@ -804,6 +834,44 @@ MapStep(st, op) ==
       [] op.op = "gowrite" -> SR(MapPut(st, op.key, op.g), "", Undef)
       [] op.op = "godelete" -> SR(MapDel(st, op.key), "", Undef)
 
+(* ---- undefined and null written into bridged maps ------------------------------ *)
+(* Element kinds with a nil-able zero value besides interface{}: "ptr:inner"       *)
+(* (map[string]*Inner), "slice:int8" (map[string][]int8), "map:int8"               *)
+(* (map[string]map[string]int8).  The checked conversion gives a nil pointer for   *)
+(* null/undefined and rejects them for slices and maps (TypeError); the legacy     *)
+(* conversion (D16_element_write_unchecked_conversion) stores the zero value of    *)
+(* the element type.  In every case a successful write leaves the KEY PRESENT,      *)
+(* holding nil - it never removes the key.                                          *)
+NilableKinds == {"ptr:inner", "slice:int8", "map:int8"}
+NilVal(k) == [k |-> "nilval", of |-> k]
+MapWriteStep(st, op) ==
+    IF st.k \notin NilableKinds THEN MapStep(st, op)
+    ELSE IF st.k = "ptr:inner" /\ D("D16_element_write_pointer_kind_panics")
+         THEN SR(st, "uncaught:TypeError", Undef)       \* toReflectValue has no Ptr case: its final panic(fmt.Errorf(...)) is a plain Go error
+    ELSE IF D("D16_element_write_unchecked_conversion") \/ st.k = "ptr:inner"
+         THEN SR(MapPut(st, op.key, NilVal(st.k)), "", op.v)
+         ELSE SR(st, "TypeError", Undef)
+RECURSIVE MapWriteRun(_, _, _, _)
+MapWriteRun(st, steps, i, thr) ==
+    IF i > Len(steps) THEN [st |-> st, thr |-> thr]
+    ELSE LET r == MapWriteStep(st, steps[i]) IN MapWriteRun(r.st, steps, i + 1, r.thr)
+RECURSIVE XJSON(_)
+XJSON(x) == CASE x.x = "nil" -> JNull [] x.x = "bool" -> [j |-> "bool", b |-> x.b]
+              [] x.x = "num" -> (IF IsFinite(x.n) THEN [j |-> "num", n |-> JsonNumF(x.n)] ELSE JErr)
+              [] x.x = "str" -> [j |-> "str", s |-> x.s]
+              [] x.x = "arr" -> [j |-> "arr", items |-> [i \in 1..Len(x.items) |-> XJSON(x.items[i])]]
+              [] x.x = "obj" -> [j |-> "obj", keys |-> x.keys, vals |-> [i \in 1..Len(x.vals) |-> XJSON(x.vals[i])]]
+ElemJSON(g) == IF g.k = "nilval" THEN JNull ELSE IF g.k = "x" THEN XJSON(g.x) ELSE GoJSON(g)
+NilValJS(g) == CASE g.of = "ptr:inner" -> Undef [] g.of = "slice:int8" -> JArr(<<>>) [] g.of = "map:int8" -> JObj(<<>>, <<>>)
+(* what is observed of one key afterwards: `key in m`, Object.keys, m[key], the Go map (presence and value), the member in MarshalJSON *)
+MapKeyObs(st, key) ==
+    LET ix == KeyIdx(st.keys, key)
+        present == ix # <<>>
+        val == IF present THEN st.vals[ix[1]] ELSE [k |-> "absent"]
+    IN  [has |-> present, keys |-> st.keys,
+         val |-> IF ~present THEN Undef ELSE IF val.k = "nilval" THEN NilValJS(val) ELSE ElemJS(val),
+         go |-> val, json |-> IF present THEN ElemJSON(val) ELSE [j |-> "absent"]]
+
 (* map[int]string: a property name that is no integer cannot be a key       *)
 IsIntKey(key) == Len(key) >= 1 /\ Len(key) <= 9 /\ AllDigits(key, 1) /\ (key[1] # 48 \/ Len(key) = 1)
 MapIntStep(st, op) ==
@@ -860,6 +928,35 @@ StructStep(st, op) ==
                 ELSE SR([st EXCEPT !.go = [st.go EXCEPT !.A = r.g[1].z]], "", Undef)
       [] op.op = "gowrite" -> SR([st EXCEPT !.go = IF op.f = "c" THEN [st.go EXCEPT !.c = op.g.z]
                                                   ELSE IF op.f = "Hid" THEN [st.go EXCEPT !.Hid = op.g.z] ELSE SetField(st.go, op.f, op.g)], "", Undef)
+
+(* ---- every form of json tag ---------------------------------------------------- *)
+(* type Tagged struct { Plain int; Named int `json:"n"`; Omit int `json:"count,omitempty"`; *)
+(*   Str int `json:"s,string"`; KeepName int `json:",omitempty"`; Dash int `json:"-"`;       *)
+(*   DashComma int `json:"-,"` }  with the values 1 .. 7.  The json name of a field is the   *)
+(* text before the first comma of its tag; an empty name part leaves the Go name; the tag    *)
+(* "-" alone gives no json name, "-," gives the name "-" (encoding/json).  Property reads    *)
+(* and writes find a field by its json name or by its Go name (goStructObject.getValue);     *)
+(* a struct parameter built from an object literal finds it by json name, or by Go name      *)
+(* unless the tag hides the field (fieldIndexByName) - anything else fails loudly.           *)
+TagGoNames == <<<<80, 108, 97, 105, 110>>, <<78, 97, 109, 101, 100>>, <<79, 109, 105, 116>>, <<83, 116, 114>>, <<75, 101, 101, 112, 78, 97, 109, 101>>, <<68, 97, 115, 104>>, <<68, 97, 115, 104, 67, 111, 109, 109, 97>>>>
+TagJsonName(i) == CASE i = 2 -> <<110>> [] i = 3 -> <<99, 111, 117, 110, 116>> [] i = 4 -> <<115>>
+                    [] i = 7 /\ ~D("D16_struct_tag_dash_comma_name_ignored") -> <<45>>          \* fieldIndexByName treats every name part "-" as hidden
+                    [] OTHER -> <<0>>                                                          \* no json name
+TagHidden(i) == i = 6 \/ (i = 7 /\ D("D16_struct_tag_dash_comma_name_ignored"))
+TagFieldFor(name, param) ==      \* 0: no such field
+    LET hits == SelectSeq(<<1, 2, 3, 4, 5, 6, 7>>,
+                          LAMBDA i : TagJsonName(i) = name \/ (TagGoNames[i] = name /\ (~param \/ ~TagHidden(i))))
+    IN  IF hits = <<>> THEN 0 ELSE hits[1]
+TagKeysSorted == <<<<68, 97, 115, 104>>, <<68, 97, 115, 104, 67, 111, 109, 109, 97>>, <<75, 101, 101, 112, 78, 97, 109, 101>>, <<78, 97, 109, 101, 100>>, <<79, 109, 105, 116>>, <<80, 108, 97, 105, 110>>, <<83, 116, 114>>>>
+TagInit == <<I(1), I(2), I(3), I(4), I(5), I(6), I(7)>>
+TagAccess(mode, name) ==
+    LET i == TagFieldFor(name, mode = "param") IN
+    CASE mode = "read" -> [thr |-> "", ret |-> IF i > 0 THEN NumV(TagInit[i]) ELSE Undef, go |-> TagInit, keys |-> TagKeysSorted]
+      [] mode = "write" ->      \* t[name] = 9, then t[name] is read back; an unknown name makes an ordinary property
+            [thr |-> "", ret |-> IntV(9), go |-> IF i > 0 THEN Upd(TagInit, i, I(9)) ELSE TagInit,
+             keys |-> IF i > 0 THEN TagKeysSorted ELSE InsertAt(TagKeysSorted, InsPos(TagKeysSorted, name, 1), name)]
+      [] mode = "param" ->      \* P({name: 9}) with func P(x Tagged)
+            IF i > 0 THEN [thr |-> "", go |-> Upd([j \in 1..7 |-> I(0)], i, I(9))] ELSE [thr |-> "TypeError"]
 
 (* what a script sees of the whole struct: keys sorted, expandos included    *)
 StructJS(st) ==
